@@ -63,6 +63,7 @@ class Facts:
         self.assigns = {}   # name -> values bound to the name itself (assignment, loop / with / comprehension target)
         self.stores = {}    # name -> list of (target expr, value expr, stmt)  [subscript/attr stores & mutator calls]
         self._collect(fi.node, include_nested)
+        self._propagate_part_stores()
         self._cache = {}
 
     def _add(self, name, expr):
@@ -122,6 +123,25 @@ class Facts:
                     for a in list(n.args) + [k.value for k in n.keywords]:
                         self._add(b, a)
                         self.stores.setdefault(b, []).append((n.func.value, a, n))
+
+    def _propagate_part_stores(self):
+        """`c = x.setdefault(k, {})` / `c = x[k]` / `c = x.get(k)` make c a part of x: what is stored into c also flows into x."""
+        for _ in range(3):
+            changed = False
+            for nm, vals in list(self.assigns.items()):
+                for v in vals:
+                    if isinstance(v, ast.Name):
+                        continue
+                    owner = base_name(v)
+                    if owner is None or owner == nm:
+                        continue
+                    for st in self.stores.get(nm, []):
+                        if st not in self.stores.get(owner, []):
+                            self.stores.setdefault(owner, []).append(st)
+                            self._add(owner, st[1])
+                            changed = True
+            if not changed:
+                break
 
     def roots(self, expr, stop=None):
         """Transitive closure of names `expr` may depend on. `stop`: names not expanded further."""
